@@ -106,6 +106,10 @@ Fixpoint py_zip_update {A B} (f : A -> B -> A) (l : list A) (m : list B) : list 
 (* next(it, default) *)
 Definition py_next_default {A} (l : list A) (d : A) : A * list A := match l with [] => (d, []) | x :: r => (x, r) end.
 
+(* fp.read(n) on a file that may return fewer bytes than asked for: at most k of them (k >= n: a full read) *)
+Definition py_read_short (avail : bytes) (n : Z) (k : nat) : bytes * bytes :=
+  let m := Nat.min (Z.to_nat n) k in (firstn m avail, skipn m avail).
+
 Definition py_unwrap {A} (o : option A) : res A := match o with Some v => Ok v | None => Err EOther end.
 
 (* while c: body  on explicit fuel: Err EFuel when the fuel runs out while the condition still holds;
